@@ -12,8 +12,8 @@ RECURSIVE Keep(_, _, _)
 Keep(s, ops, acc) ==
     IF ops = <<>> THEN acc
     ELSE IF Enabled(s, Head(ops))
-         THEN (IF ClosesCycle(s, Head(ops)) \/ IsRedefinition(s, Head(ops))
-               THEN Append(acc, Head(ops))     \* the implementation is unusable afterwards (open findings): cut here
+         THEN (IF ClosesCycle(s, Head(ops))
+               THEN Append(acc, Head(ops))     \* what remains after a refused re-binding is not comparable: cut here
                ELSE Keep(Apply(s, Head(ops)), Tail(ops), Append(acc, Head(ops))))
     ELSE Keep(s, Tail(ops), acc)
 
